@@ -51,6 +51,7 @@ func errEdges(fn *ssa.Function, call *ssa.Call, idx int, isNil bool) []Edge {
 // escapesWithout: starting at block `from`, is there a path to a function exit
 // (Return) that passes no block containing an instruction satisfying pass?
 func escapesWithout(from *ssa.BasicBlock, pass func(ssa.Instruction) bool) []*ssa.BasicBlock {
+	passEdges := liftPassEdges(from.Parent(), pass, 2)
 	pass = liftPass(pass, 3)
 	blocked := func(b *ssa.BasicBlock) bool {
 		for _, in := range b.Instrs {
@@ -67,7 +68,7 @@ func escapesWithout(from *ssa.BasicBlock, pass func(ssa.Instruction) bool) []*ss
 		_, ok := b.Instrs[len(b.Instrs)-1].(*ssa.Return)
 		return ok
 	}
-	return psSearch(from, nil, blocked, isExit)
+	return psSearch(from, passEdges, blocked, isExit)
 }
 
 func isWriteHeader(in ssa.Instruction, lo, hi int64) bool {
@@ -299,37 +300,7 @@ func runC14(c *Ctx) {
 	c.count("IPC call sites in handlers", nIPC)
 
 	// ---- O-4 legacy shim shares the ClientOffers call ----
-	if co := p.Fn("broker", "clientOffers"); co != nil {
-		sites := callsTo(co, "(*broker.IPC).ClientOffers")
-		c.check(len(sites) == 1, "O-4 legacy shim is a wrapper around the same handler", "broker.clientOffers calls (*IPC).ClientOffers once", p.Pos(co.Pos()),
-			"one call site shared by the legacy and the versioned format", fmt.Sprintf("%d call sites of ClientOffers in clientOffers", len(sites)))
-		// the legacy request is built from the body and the NAT header
-		found := false
-		allInstrs(co, func(in ssa.Instruction) {
-			if ci, ok := in.(ssa.CallInstruction); ok && isCallTo(ci, "(*common/messages.ClientPollRequest).EncodeClientPollRequest") {
-				recv := ci.Common().Args[0]
-				offer := structLitField(recv, "Offer")
-				nat := structLitField(recv, "NAT")
-				okOffer := offer != nil && flows(offer, func(v ssa.Value) bool { return isResultOf(v, 0, "io/ioutil.ReadAll", "io.ReadAll") })
-				okNAT := nat != nil && flows(nat, func(v ssa.Value) bool {
-					cc, _, ok := callResult(v)
-					if !ok || !isCallTo(cc, "(net/http.Header).Get") {
-						return false
-					}
-					s, _ := constString(cc.Call.Args[1])
-					return s == "Snowflake-NAT-Type"
-				})
-				found = true
-				c.check(okOffer && okNAT, "O-4 legacy shim is a wrapper around the same handler", "broker.clientOffers legacy request fields", p.instrPos(in),
-					"Offer = request body, NAT = Snowflake-NAT-Type header", fmt.Sprintf("legacy request not built from body/header (offer ok=%v, nat ok=%v)", okOffer, okNAT))
-			}
-		})
-		if !found {
-			c.undecided("O-4 legacy shim is a wrapper around the same handler", "broker.clientOffers legacy request fields", p.Pos(co.Pos()), "no EncodeClientPollRequest call found")
-		}
-	} else {
-		c.undecided("O-4 legacy shim is a wrapper around the same handler", "broker.clientOffers", "-", "anchor does not resolve")
-	}
+	c.checkLegacyShim("O-4 legacy shim is a wrapper around the same handler")
 
 	// ---- O-5 no unbounded wait: the rendezvous-channel obligations of C04 ----
 	c.prefix = "O-5/C04:"
@@ -437,4 +408,44 @@ func constLabelValues(v ssa.Value) string {
 	}
 	walk(mm)
 	return strings.Join(parts, ",")
+}
+
+// checkLegacyShim: the pre-versioning client format is translated into the
+// versioned request from the request body and the Snowflake-NAT-Type header
+// (read with Header.Get, i.e. case-insensitively) and handed to the one shared
+// ClientOffers call.
+func (c *Ctx) checkLegacyShim(rule string) {
+	p := c.P
+	if co := p.Fn("broker", "clientOffers"); co != nil {
+		sites := callsTo(co, "(*broker.IPC).ClientOffers")
+		c.check(len(sites) == 1, rule, "broker.clientOffers calls (*IPC).ClientOffers once", p.Pos(co.Pos()),
+			"one call site shared by the legacy and the versioned format", fmt.Sprintf("%d call sites of ClientOffers in clientOffers", len(sites)))
+		// the legacy request is built from the body and the NAT header
+		found := false
+		allInstrs(co, func(in ssa.Instruction) {
+			if ci, ok := in.(ssa.CallInstruction); ok && isCallTo(ci, "(*common/messages.ClientPollRequest).EncodeClientPollRequest") {
+				recv := ci.Common().Args[0]
+				offer := structLitField(recv, "Offer")
+				nat := structLitField(recv, "NAT")
+				okOffer := offer != nil && flows(offer, func(v ssa.Value) bool { return isResultOf(v, 0, "io/ioutil.ReadAll", "io.ReadAll") })
+				okNAT := nat != nil && flows(nat, func(v ssa.Value) bool {
+					cc, _, ok := callResult(v)
+					if !ok || !isCallTo(cc, "(net/http.Header).Get") {
+						return false
+					}
+					s, _ := constString(cc.Call.Args[1])
+					return s == "Snowflake-NAT-Type"
+				})
+				found = true
+				c.check(okOffer && okNAT, rule, "broker.clientOffers legacy request fields", p.instrPos(in),
+					"Offer = request body, NAT = Snowflake-NAT-Type header", fmt.Sprintf("legacy request not built from body/header (offer ok=%v, nat ok=%v)", okOffer, okNAT))
+			}
+		})
+		if !found {
+			c.undecided(rule, "broker.clientOffers legacy request fields", p.Pos(co.Pos()), "no EncodeClientPollRequest call found")
+		}
+	} else {
+		c.undecided(rule, "broker.clientOffers", "-", "anchor does not resolve")
+	}
+
 }
